@@ -2795,15 +2795,22 @@ def _decode_private(
 
     key: Optional[SSHKey]
 
-    if fmt == 'der':
-        key = _decode_der_private(key_info[0], passphrase,
-                                  unsafe_skip_rsa_key_validation)
-    elif fmt == 'pem':
-        pem_name, headers, data = key_info
-        key = _decode_pem_private(pem_name, headers, data, passphrase,
-                                  unsafe_skip_rsa_key_validation)
-    else:
-        key = None
+    try:
+        if fmt == 'der':
+            key = _decode_der_private(key_info[0], passphrase,
+                                      unsafe_skip_rsa_key_validation)
+        elif fmt == 'pem':
+            pem_name, headers, data = key_info
+            key = _decode_pem_private(pem_name, headers, data, passphrase,
+                                      unsafe_skip_rsa_key_validation)
+        else:
+            key = None
+    except (KeyImportError, KeyEncryptionError):
+        raise
+    except (ValueError, OverflowError) as exc:
+        # Keys with impossible parameters are rejected by the crypto
+        # backend with a ValueError or OverflowError
+        raise KeyImportError(f'Invalid private key: {exc}') from None
 
     return key, end
 
@@ -2815,11 +2822,17 @@ def _decode_public(data: bytes) -> Tuple[Optional[SSHKey], Optional[int]]:
 
     key: Optional[SSHKey]
 
-    if fmt == 'der':
-        key = _decode_der_public(key_info[0])
-    elif fmt == 'pem':
-        pem_name, _, data = key_info
-        key = _decode_pem_public(pem_name, data)
+    if fmt in ('der', 'pem'):
+        try:
+            if fmt == 'der':
+                key = _decode_der_public(key_info[0])
+            else:
+                pem_name, _, data = key_info
+                key = _decode_pem_public(pem_name, data)
+        except KeyImportError:
+            raise
+        except (ValueError, OverflowError) as exc:
+            raise KeyImportError(f'Invalid public key: {exc}') from None
     elif fmt == 'openssh':
         algorithm, comment, data = key_info
         key = decode_ssh_public_key(data)
@@ -3041,7 +3054,11 @@ def decode_ssh_public_key(data: bytes) -> SSHKey:
         else:
             raise KeyImportError('Unknown key algorithm: ' +
                                  alg.decode('ascii', errors='replace'))
-    except PacketDecodeError:
+    except KeyImportError:
+        raise
+    except (PacketDecodeError, ValueError, OverflowError):
+        # Well-framed keys with impossible parameters are rejected by
+        # the crypto backend with a ValueError or OverflowError
         raise KeyImportError('Invalid public key') from None
 
 
